@@ -481,7 +481,9 @@ func (s *Session) checkPermission(right auth.AccessRight) bool {
 }
 
 func (s *Session) checkPathPermission(path string, right auth.AccessRight) bool {
-	if s.authMode == auth.NoneAuth {
+	// WebSocket 会话的用户已由 http 验证，不再做摘要认证，但仍然要按该用户的权限检查每个路径
+	// （否则凭某一路径的拉流权限建立的会话可以向任意路径推流）
+	if s.authMode == auth.NoneAuth && !(s.wsconn != nil && config.Auth()) {
 		return true
 	}
 
@@ -578,7 +580,9 @@ func (s *Session) onPreprocess(resp *Response, req *Request) (continueProcess bo
 		return false, err
 	}
 
-	s.user = user
+	if s.authMode != auth.NoneAuth { // 无需摘要认证的会话（WebSocket）保留建立连接时由 http 验证的用户
+		s.user = user
+	}
 	return true, nil
 }
 
